@@ -124,7 +124,7 @@ def gen_case(rng, tmpl, all_paths, valid_base=None):
                 muts.append([list(p), "junk:" + _kind_of(v)])
             elif kind == "unknown":
                 par_ = p[:-1]
-                set_at(cfg, par_ + (rng.choice(["zzz_unknown", "Enabled", "max_entires", "x" * 40, "bad\rkey", "ff\x0ckey", "nel\x85key", "ls\u2028key", "nl\nkey", " lead", "tab\tkey", "ünï"]),), rng.choice([1, {}, "a"]))
+                set_at(cfg, par_ + (rng.choice(["zzz_unknown", "Enabled", "max_entires", "x" * 40, "t5", "t0", "tx", "enabel", "ttl", "ma", "bad\rkey", "ff\x0ckey", "nel\x85key", "ls\u2028key", "nl\nkey", " lead", "tab\tkey", "ünï"]),), rng.choice([1, {}, "a"]))
                 muts.append([list(par_), "unknown-key"])
             elif kind == "nearmiss":
                 par_ = p[:-1]
@@ -176,6 +176,7 @@ VALID_ALTS = {
 HOSTILE = ["nan", "NaN", " nan ", "-nan", "inf", "-Infinity", "1e999", "1e-999", "0x10", "1_000", "١٢", "true", "null", "", NAN, INF, -INF, 1e308, -1e308, 1e200, 10 ** 400,
            -10 ** 400, 5e-324, -0.0, 2 ** 63, 2 ** 31, -1, 0, 1, 0.5, True, False, None, [], {}, [[1]], [{"a": 1}], [None], ["x", 1], {"a": [1]}, [NAN],
            {1: 2, "x": 3}, {None: 1, "a": 0}, 0.0, [0], "0", b"bytes"]
+HOSTILE_NUM = [10 ** 400, -10 ** 400, 1e308, 1e200, 2 ** 63, 10 ** 18, 0, -1, 5e-324, 1e-300]
 
 
 def _kind_of(v):
@@ -492,16 +493,50 @@ def check_case(cfg, muts, sess, engine=True, script=True, seen_norm=None):
             sess.nontrivial.add(chash(msgs))
 
 
-def cli_case(cfg):
-    """Real CLI in a subprocess; returns (rc, first line)."""
+def huge_int_leg(sess, tmpl, allp):
+    """Integers beyond the interpreter's int->str limit (10**5000) as values and as keys: any message that echoes them
+    must not turn into a ValueError.  (Kept apart from the sweep: such integers cannot be printed by the harness either, so
+    the case is recorded by description.)"""
+    import configs.validate as V
+    from clematis.errors import ConfigError
+
+    big = 10 ** 5000
+    places = [("version",), ("k_surface",)] + [p_ for p_ in allp if p_[-1] in ("iter_cap", "k_retrieval", "half_life_turns", "max_entries", "tokens", "quantum_ms", "rate", "weight_min")][:12]
+    for p_ in places:
+        for where in ("value", "key"):
+            cfg = {}
+            try:
+                set_at(cfg, p_ if where == "value" else p_[:-1] + (big,), big if where == "value" else 1)
+            except Exception:
+                continue
+            for entry in ("validate_config", "validate_config_api", "compat"):
+                sess.evaluations += 1
+                sess.count("huge_int_validations")
+                try:
+                    if entry == "validate_config":
+                        V.validate_config(cfg)
+                    elif entry == "validate_config_api":
+                        V.validate_config_api(cfg)
+                    else:
+                        V.validate_config(cfg, strict=False)
+                except ConfigError:
+                    pass
+                except Exception as ex:
+                    sess.violation(f"validator-raises:{type(ex).__name__}@huge-int-{where}", {"path": list(p_), "what": f"10**5000 as {where}", "entry": entry}, repr(ex)[:160])
+
+
+def cli_case(cfg, hashseed="0"):
+    """Real CLI in a subprocess; returns (rc, first line, stderr tail, remaining stdout lines)."""
     import yaml
     from vlib import bootstrap
 
     text = yaml.safe_dump(cfg, allow_unicode=True)
     p = subprocess.run([bootstrap.PY, "-m", "clematis", "validate", "-"], input=text.encode(), capture_output=True,
-                       env=bootstrap.child_env(), cwd=bootstrap.VERIF, timeout=120)
+                       env=bootstrap.child_env(PYTHONHASHSEED=hashseed), cwd=bootstrap.VERIF, timeout=120)
     out = p.stdout.decode("utf-8", "replace").split("\n")
-    return p.returncode, (out[0] if out else ""), p.stderr.decode("utf-8", "replace")[-300:]
+    if out and out[-1] == "":
+        out.pop()
+    return p.returncode, (out[0] if out else ""), p.stderr.decode("utf-8", "replace")[-300:], out[1:]
 
 
 def _chunk(args):
@@ -519,11 +554,20 @@ def _chunk(args):
         if i == 0:
             check_case({}, [], sess)
             check_case(copy.deepcopy(tmpl), [], sess)
+            huge_int_leg(sess, tmpl, allp)
         for _ in range(n):
             cfg, muts = gen_case(rng, tmpl, allp)
             check_case(cfg, muts, sess)
         # systematic sweep: every leaf of the key tree x every hostile scalar, and every interior node x every non-object
         # (one mutation of the valid template / of the empty config each, so accepted ones are also executed)
+        tmpl_on = copy.deepcopy(tmpl)
+        for p_on, v_on in ((("graph", "enabled"), True), (("graph", "merge", "enabled"), True), (("graph", "split", "enabled"), True), (("graph", "promotion", "enabled"), True),
+                           (("t2", "hybrid", "enabled"), True), (("t2", "quality", "enabled"), True), (("t2", "quality", "mmr", "enabled"), True), (("t3", "allow_reflection"), True),
+                           (("scheduler", "enabled"), True), (("perf", "enabled"), True), (("perf", "metrics", "report_memory"), True)):
+            try:
+                set_at(tmpl_on, p_on, v_on)
+            except Exception:
+                pass
         sweep = [(p_, v_) for p_ in allp for v_ in HOSTILE]
         interior = sorted({p_[:j] for p_ in allp for j in range(1, len(p_))})
         sweep += [(p_, v_) for p_ in interior for v_ in (None, 1, "x", [], True, {}, {1: 2, "EditGraph": 3}, {None: 1, "a": 0, 2.5: 1}, {(1, 2): 1, "b": {3: 4, "c": 5}})]
@@ -534,17 +578,23 @@ def _chunk(args):
         for j, (p_, v_) in enumerate(sweep):
             if j % nchunks != i % nchunks:
                 continue
-            for start in ("tmpl", "empty"):
-                cfg = copy.deepcopy(tmpl) if start == "tmpl" else {}
+            starts = ("tmpl", "empty") + (("tmpl-on",) if (tier != "quick" or any(v_ is h or v_ == h for h in HOSTILE_NUM if type(h) is type(v_))) and len(p_) > 1 else ())
+            for start in starts:
+                # "tmpl-on": the template with every feature gate open, so that the gated code runs under the accepted value
+                cfg = copy.deepcopy(tmpl) if start == "tmpl" else (copy.deepcopy(tmpl_on) if start == "tmpl-on" else {})
                 try:
                     set_at(cfg, p_, copy.deepcopy(v_))
                 except Exception:
                     continue
                 sess.count("sweep_cases")
                 # quick tier: the validator / script oracles see the whole sweep; the engine runs on the template-based half
-                check_case(cfg, [[list(p_), "sweep:" + repr(v_)[:20]]], sess, engine=(tier != "quick" or start == "tmpl"), seen_norm=seen_norm)
-        for _ in range(ncli):
+                check_case(cfg, [[list(p_), "sweep:" + repr(v_)[:20]]], sess, engine=(tier != "quick" or start in ("tmpl", "tmpl-on")), seen_norm=seen_norm)
+        for j_ in range(ncli):
             cfg, muts = gen_case(rng, tmpl, allp)
+            if j_ % 3 == 0:
+                # a typo that is equally close to several allowed keys (the hint must not depend on the process)
+                cfg = {rng.choice(["t5", "t0", "tx", "perg", "grap"]): 1, "t2": {rng.choice(["cach", "tier", "rankin", "k_retrieva"]): 1}, "t4": {rng.choice(["cache_bust", "enable", "weight_mi"]): 1}}
+                muts = [["", "typo-ties"]]
             if not yaml_able(cfg):
                 continue
             import yaml
@@ -553,11 +603,14 @@ def _chunk(args):
             ok, norm, msgs = api_round(cfg, Session.worker(PID), {"cfg": cfg})
             if ok is None:
                 continue
-            rc, first, err = cli_case(cfg)
+            rc, first, err, rest = cli_case(cfg, hashseed=rng.choice(["0", "1", "7", "4242"]))
             sess.count("cli_subprocess_runs")
             sess.evaluations += 1
             if (ok and (rc != 0 or first != "OK")) or ((not ok) and (rc != 1 or first != "CONFIG INVALID")):
                 sess.violation("cli-disagrees", {"cfg": cfg, "muts": muts}, {"rc": rc, "first": first[:80], "api_ok": ok, "stderr": err})
+            elif not ok and rest != msgs:
+                # a fresh process (other hash seed, no validation history) must print the messages this process computed
+                sess.violation("cli-disagrees-on-messages", {"cfg": cfg, "muts": muts}, {"cli": rest[:3], "api": msgs[:3]})
     except Exception as ex:
         import traceback
         sess.inconclusive_because(f"harness error {type(ex).__name__}: {ex} @ {traceback.format_exc()[-500:]}")
@@ -570,7 +623,7 @@ def main(tier: str, seed: int):
     sess.assume("script/CLI agreement is checked for inputs that survive a YAML round trip")
     q = tier == "quick"
     n = par.NWORK
-    jobs = [(tier, seed, i, (220 if q else 11000), (8 if q else 100)) for i in range(n)]
+    jobs = [(tier, seed, i, (220 if q else 11000), (12 if q else 150)) for i in range(n)]
     for ex in par.pmap(_chunk, jobs):
         sess.merge(ex)
     sess.require("configs_validated", 2000)
